@@ -57,8 +57,9 @@ def r1(ctx):
         return None
 
     def key(kind):
-        d = _expr_dict(interp)
-        d["__kind"] = kind
+        # `text:Path`: a text key that is the bare column Path (its value is still compared as text, byte by byte)
+        d = _expr_dict(interp) if ":" not in kind else _expr_dict(interp, field=interp.some(interp.V("Field::" + kind.split(":")[1])))
+        d["__kind"] = kind.split(":")[0]
         return d
 
     def crit(kinds, values, asc):
@@ -76,6 +77,9 @@ def r1(ctx):
                "date": (["d10", "d2", "d7", "x"], lambda v: int(v[1:]) if v[1:].isdigit() else 0),
                # an expression with a numeric and a date part (`size + modified`) is ordered by value, as the numeric kind
                "numeric+date": (["10", "2", "x"], lambda v: int(v) if v.isdigit() else 0)}
+    # text keys that are real columns, on values whose byte order differs from their order as paths / numbers / words
+    for col in ("Path", "AbsPath", "Directory", "AbsDir", "Name", "Extension", "User"):
+        domains["text:" + col] = (["pkg", "pkg.d", "pkg/x", "Pkg", "pkg x"], lambda v: v.encode())
     try:
         for kind, (vals, keyf) in domains.items():
             for asc in (True, False):
